@@ -21,6 +21,20 @@ class LogBuffer(RingBuffer[str]):
     pass
 
 
+class _QueueMarker:
+    """Marker for the send queue, a distinct object so it can never be confused with data to send"""
+
+    def __init__(self, name: str) -> None:
+        self.name = name
+
+    def __repr__(self) -> str:
+        return f"<{self.name}>"
+
+
+_KEEP_ALIVE = _QueueMarker("_KEEP_ALIVE")
+_EXIT = _QueueMarker("_EXIT")
+
+
 class YncaProtocolStatus(Enum):
     OK = 0
     UNDEFINED = 1
@@ -80,12 +94,12 @@ class YncaProtocol(serial.threaded.LineReader):
         if self._send_queue:
             # There seems to be no way to clear a queue so just read all and add the _EXIT command
             try:
-                while self._send_queue.get(False):
-                    pass
+                while True:
+                    self._send_queue.get(False)
             except queue.Empty:
                 pass
             finally:
-                self._send_queue.put("_EXIT")
+                self._send_queue.put(_EXIT)
         if self._send_thread:
             self._send_thread.join(2)
 
@@ -132,7 +146,7 @@ class YncaProtocol(serial.threaded.LineReader):
 
     def _send_keepalive(self):
         if self._send_queue:
-            self._send_queue.put("_KEEP_ALIVE")
+            self._send_queue.put(_KEEP_ALIVE)
 
     def _send_handler(self):
         stop = False
@@ -140,9 +154,9 @@ class YncaProtocol(serial.threaded.LineReader):
             try:
                 message = self._send_queue.get(True, self.KEEP_ALIVE_INTERVAL)
 
-                if message == "_EXIT":
+                if message is _EXIT:
                     stop = True
-                elif message == "_KEEP_ALIVE":
+                elif message is _KEEP_ALIVE:
                     message = "@SYS:MODELNAME=?"  # This message is suggested by YNCA spec for keep-alive
                     self._keep_alive_pending = True
 
